@@ -37,6 +37,7 @@ from bqskit.ir.gates.constant.s import SGate
 from bqskit.ir.gates.constant.sdg import SdgGate
 from bqskit.ir.gates.constant.sqrtcnot import SqrtCNOTGate
 from bqskit.ir.gates.constant.sqrtiswap import SqrtISwapGate
+from bqskit.ir.gates.constant.sqrtt import SqrtTGate
 from bqskit.ir.gates.constant.swap import SwapGate
 from bqskit.ir.gates.constant.sx import SXGate
 from bqskit.ir.gates.constant.sycamore import SycamoreGate
@@ -195,7 +196,7 @@ class OPENQASMVisitor(Visitor):
         self.gate_defs['crz'] = GateDef('crz', 1, 2, CRZGate())
         self.gate_defs['fsim'] = GateDef('fsim', 2, 2, FSIMGate())
         self.gate_defs['rx'] = GateDef('rx', 1, 1, RXGate())
-        self.gate_defs['pxz'] = GateDef('pxz', 1, 3, PhasedXZGate())
+        self.gate_defs['pxz'] = GateDef('pxz', 3, 1, PhasedXZGate())
         self.gate_defs['rxx'] = GateDef('rxx', 1, 2, RXXGate())
         self.gate_defs['ry'] = GateDef('ry', 1, 1, RYGate())
         self.gate_defs['ryy'] = GateDef('ryy', 1, 2, RYYGate())
@@ -231,6 +232,7 @@ class OPENQASMVisitor(Visitor):
         self.gate_defs['iccx'] = GateDef('iccx', 0, 3, IToffoliGate())
         self.gate_defs['s'] = GateDef('s', 0, 1, SGate())
         self.gate_defs['sdg'] = GateDef('sdg', 0, 1, SdgGate())
+        self.gate_defs['st'] = GateDef('st', 0, 1, SqrtTGate())
         self.gate_defs['csx'] = GateDef('csx', 0, 2, SqrtCNOTGate())
         self.gate_defs['cv'] = GateDef('cv', 0, 2, SqrtCNOTGate())
         self.gate_defs['sqisw'] = GateDef('sqisw', 0, 2, SqrtISwapGate())
